@@ -749,6 +749,38 @@ def inline_new_helpers(repo, new_funcs, resolve_helper, bind_args, max_rounds=2)
                                     report.setdefault(q, []).append(h.qname)
                                     changed = True
                                     continue
+                    # list(gen(...)) / tuple(gen(...)) with gen a new generator helper: collect through an explicit loop
+                    if isinstance(st, (ast.Expr, ast.Assign, ast.Return)) and getattr(st, "value", None) is not None:
+                        done = False
+                        for c_ in _hoistable_calls(st.value, allow_top=True):
+                            if isinstance(c_.func, ast.Name) and c_.func.id in ("list", "tuple") and len(c_.args) == 1 and not c_.keywords and isinstance(c_.args[0], ast.Call):
+                                hg, _sk = resolve_helper(repo, f, c_.args[0])
+                                if hg is not None and hg.qname in new_funcs and hg.node is not f.node and _is_generator(hg.node):
+                                    counter[0] += 1
+                                    tmp = f"collected__g{counter[0]}"
+                                    el = f"item__g{counter[0]}"
+                                    loop = ast.For(target=ast.Name(id=el, ctx=ast.Store()), iter=c_.args[0], orelse=[], lineno=getattr(st, "lineno", 0), col_offset=0,
+                                                   body=[ast.Expr(value=ast.Call(func=ast.Attribute(value=ast.Name(id=tmp, ctx=ast.Load()), attr="append", ctx=ast.Load()),
+                                                                                 args=[ast.Name(id=el, ctx=ast.Load())], keywords=[]))])
+                                    init = ast.Assign(targets=[ast.Name(id=tmp, ctx=ast.Store())], value=ast.List(elts=[], ctx=ast.Load()), lineno=getattr(st, "lineno", 0), col_offset=0)
+                                    repl = ast.Name(id=tmp, ctx=ast.Load()) if c_.func.id == "list" else ast.Call(func=ast.Name(id="tuple", ctx=ast.Load()), args=[ast.Name(id=tmp, ctx=ast.Load())], keywords=[])
+
+                                    class SubL(ast.NodeTransformer):
+                                        def visit_Call(self, n):
+                                            if n is c_:
+                                                return repl
+                                            self.generic_visit(n)
+                                            return n
+                                    st2 = SubL().visit(st)
+                                    for x in (init, loop, st2):
+                                        ast.fix_missing_locations(x)
+                                    caller_names.update({tmp, el})
+                                    out += rewrite([init, loop]) + [st2]
+                                    changed = True
+                                    done = True
+                                    break
+                        if done:
+                            continue
                     # calls of new helpers in the iterable of a `for` / the test of an `if` are evaluated once, before the
                     # statement: hoist them like calls nested in an assignment
                     if isinstance(st, (ast.For, ast.If)):
